@@ -30,6 +30,7 @@ S = 64
 INVS = ["TypeOK", "Faithful", "JacCoords", "Recorded", "KeysDistinct", "NonEmptyEntries", "Memo",
         "NoJacStored", "NoDbNoRecord"]
 PROPS = ["KeysAppendOnly", "WriteOnce", "ConfigFixed", "ServedFromDb", "PreprocessIdempotent"]
+CALLS = ("EvalF", "EvalJ", "EvalAll", "Preprocess", "Repreprocess")
 ALL_SPACES = ["finite", "equal", "halfinf", "inf", "int", "intnorm", "mixed3", "allint", "intneg"]
 MODULE = "ProblemEval"
 
@@ -101,6 +102,7 @@ class Harness:
         from gemseo.core.mdo_functions.mdo_function import MDOFunction
         from gemseo.core.mdo_functions.mdo_linear_function import MDOLinearFunction
         from scipy.sparse import csr_array
+        from scipy.sparse import csr_matrix
 
         self.cfg = cfgd
         self.sp = sp
@@ -125,7 +127,10 @@ class Harness:
         self.fd = variant["diff"] != "user" and not self.int_cols
         self.problem = problem = OptimizationProblem(
             ds, differentiation_method=variant["diff"] if self.fd else "user")
-        mdo = {}
+        self.lin = {}
+        self.mdo = mdo = {}
+        # class of the coefficient matrix of the linear functions (binding-only, derived from the variant)
+        self.lin_coeff = ("csr_matrix" if variant["role2"] == "observable" else "csr_array") if sparse else "ndarray"
         for f in fns:
             lg = self.logs[f]
             if f in ("qs", "qv"):
@@ -137,8 +142,10 @@ class Harness:
                     jac = (lambda x: csr_array(dj(x))) if sparse else dj
                 mdo[f] = MDOFunction(Logged(val, lg["f"]), f, jac=Logged(jac, lg["j"]))
             else:
-                a, b = lin_data[(f, n)]
-                mdo[f] = MDOLinearFunction(csr_array(a) if sparse else a.copy(), f, value_at_zero=b.copy())
+                a, b = self.lin[f] = lin_data[(f, n)]
+                # sparse coefficients: the user's own matrix object is kept by the function
+                coefficients = {"csr_matrix": csr_matrix, "csr_array": csr_array, "ndarray": np.array}[self.lin_coeff](a)
+                mdo[f] = MDOLinearFunction(coefficients, f, value_at_zero=b.copy())
                 mdo[f].func = Logged(mdo[f].func, lg["f"])
                 mdo[f].jac = Logged(mdo[f].jac, lg["j"])
         problem.objective = mdo[fns[0]]
@@ -147,12 +154,23 @@ class Harness:
         else:
             problem.add_observable(mdo[fns[1]])
         self.variant = variant
-        self.preprocess(cfgd)
-        for f in fns:  # MDOLinearFunction.normalize evaluates the original once while preprocessing
+        self.first_preprocess(cfgd)
+
+    def first_preprocess(self, c):
+        """preprocess_functions on the original functions (at construction, or after problem.reset())."""
+        self.cfg = c
+        self.preprocess(c)
+        for f in self.fns:  # MDOLinearFunction.normalize evaluates the original once while preprocessing
             self.logs[f]["f"].clear()
             self.logs[f]["j"].clear()
-        second = problem.constraints if variant["role2"] == "constraint" else problem.observables
-        self.fobj = {fns[0]: problem.objective, fns[1]: second[0]}
+        problem = self.problem
+        second = problem.constraints if self.variant["role2"] == "constraint" else problem.observables
+        self.fobj = {self.fns[0]: problem.objective, self.fns[1]: second[0]}
+
+    def originals(self, f, x):
+        """Value and Jacobian of the ORIGINAL function object f (not logged)."""
+        m = self.mdo[f]
+        return m.func.fn(x), m.jac.fn(x)
 
     def preprocess(self, c):
         self.problem.preprocess_functions(
@@ -174,6 +192,12 @@ class Harness:
             return {"outs": outs, "jacs": jacs}
         if name == "Preprocess":
             self.preprocess(call[1])
+            return {"outs": {}, "jacs": {}}
+        if name == "Repreprocess":
+            self.problem.reset()
+            if self.problem.objective is not self.mdo[self.fns[0]]:
+                raise RuntimeError("problem.reset() did not restore the original objective")
+            self.first_preprocess(call[1])
             return {"outs": {}, "jacs": {}}
         raise MachineryError(f"unknown call {call!r}")
 
@@ -219,6 +243,8 @@ def compare_step(ck: Check, h: Harness, state, got, ctx):
     ret, fns = state["ret"], h.fns
     cfgd, sp = h.cfg, h.sp
     bad = 0
+    if dict(state["cfg"]) != dict(cfgd):
+        raise MachineryError(f"driver configuration {cfgd} differs from the specification's {state['cfg']}")
 
     def sig(clause, f, kind, **kw):
         s = {"clause": clause, "function": "linear" if f.startswith("l") else "quadratic", "kind": kind,
@@ -298,6 +324,25 @@ def compare_step(ck: Check, h: Harness, state, got, ctx):
             if extra:
                 bad += ck.violation("Recorded", sig("Recorded", fns[0], "names", where="db"),
                                     detail(key=se["key"], unexpected_names=sorted(extra)))
+    # the user's original function objects are still the functions F / DF of the specification
+    for f in fns:
+        problems = []
+        if f in h.lin:
+            a, b = h.lin[f]
+            co = h.mdo[f].coefficients
+            co = co.toarray() if hasattr(co, "toarray") else np.asarray(co)
+            if not (np.array_equal(co, a) and np.array_equal(np.asarray(h.mdo[f].value_at_zero).ravel(), b)):
+                problems.append({"coefficients": co.tolist(), "spec": a.tolist()})
+        for pt in sp["pts"]:
+            want = ctx["calib"].get((str(sp["id"]), f, tuple(pt)))
+            if want is None:
+                raise MachineryError(f"no calibration record for {sp['id']} {f} {pt}")
+            val, jac = h.originals(f, np.array(pt, dtype=float) / S)
+            if vec(val) != list(want[0]) or mat(jac) != [list(r) for r in want[1]]:
+                problems.append({"point": list(pt), "impl": [vec(val), mat(jac)], "spec": want})
+        if problems:
+            bad += ck.violation("OriginalIntact", sig("OriginalIntact", f, "original", jac=h.variant["jac"]),
+                                detail(function=f, problems=problems))
     # original calls
     for f in fns:
         for kind in ("f", "j"):
@@ -352,7 +397,7 @@ def replay(ck: Check, states, fns, lin_data, variant, label):
         ck.violation("Preprocess", dict(base_sig, call="preprocess_functions", exception=type(ex).__name__),
                      {"cfg": cfgd, "space": sp, "variant": variant, "traceback": traceback.format_exc(limit=8)})
         return
-    ctx = {"calls": [], "frac": False}
+    ctx = {"calls": [], "frac": False, "calib": lin_data["calib"]}
     if h.fd:
         base_sig["diff"] = variant["diff"]
     for st in states[1:]:
@@ -360,7 +405,9 @@ def replay(ck: Check, states, fns, lin_data, variant, label):
         ctx["calls"].append(call)
         ctx["frac"] = ctx["frac"] or bool(st["ret"]["frac"])
         ok, got = ck.guard("Evaluates", dict(base_sig, call=str(call[0]), int_var=bool(h.int_cols),
-                                             jac=variant["jac"], support_sparse=variant["support_sparse"]),
+                                             normalize=bool(h.cfg["normalize"]), use_db=bool(h.cfg["useDb"]),
+                                             jac=variant["jac"], support_sparse=variant["support_sparse"],
+                                             lin_coeff=h.lin_coeff),
                            h.call, call)
         if not ok:
             return
@@ -417,7 +464,7 @@ def replay_many(ck: Check, fns, lin_data, jobs):
 def calibrate(ck: Check, printed, fns):
     """The user's callables must be the functions the specification reasons about; the linear functions are
     BUILT from the specification's data (A = DF, b = F(p) - A p)."""
-    lin_data = {}
+    lin_data = {"calib": {}}
     seen = set()
     n = 0
     for v in printed:
@@ -427,6 +474,7 @@ def calibrate(ck: Check, printed, fns):
         if (sid, f, p) in seen:
             continue
         seen.add((sid, f, p))
+        lin_data["calib"][(str(sid), str(f), tuple(p))] = (tuple(val), tuple(tuple(r) for r in jac))
         x = np.array(p, dtype=float) / S
         a = np.array(jac, dtype=float) / S
         if f in ("ls", "lv"):
@@ -496,7 +544,7 @@ def bfs_and_tour(ck: Check, spaces, fns, npts, max_level, rng, variants_per_path
     for (_, d, _, _) in g.edges:
         k = str(g.states[d]["ret"]["call"][0])
         kinds[k] = kinds.get(k, 0) + 1
-    for k in ("EvalF", "EvalJ", "EvalAll", "Preprocess"):
+    for k in CALLS:
         if not kinds.get(k):
             raise MachineryError(f"vacuity: no {k} transition in the state graph")
     hits = sum(1 for (_, d, _, _) in g.edges if g.states[d]["ret"]["hitF"] or g.states[d]["ret"]["hitJ"])
@@ -563,7 +611,7 @@ def vacuity(ck: Check):
     """A small coverage-enabled run (coverage mode is slow on this module, so the big runs go without):
     every action of the specification is taken; the dumped graphs are checked again per call kind."""
     ck.tlc(MODULE, cfg_text(["equal"], "qs", "lv", 1, 1000, 3), workers=2, timeout=600, coverage=True,
-           deadlock=False, count=False, require_actions=("EvalF", "EvalJ", "EvalAll", "Preprocess"))
+           deadlock=False, count=False, require_actions=CALLS)
 
 
 def run(ck: Check):
